@@ -3377,10 +3377,12 @@ class EntityFixup(MutableMapping[str, str]):
         if self._matcher is None:
             # Sort longer values first, so they are checked before smaller
             # counterparts.
-            sections: Iterable[str] = map(re.escape, sorted(self._fixup.keys(), key=len, reverse=True))
+            sections = [re.escape(key) for key in sorted(self._fixup.keys(), key=len, reverse=True)]
             # ! maybe, $, any known fixups, then a default any-identifier check.
+            # The default goes in the list, so an empty table doesn't produce an empty alternative.
+            sections.append('[a-z_][a-z0-9_]*')
             self._matcher = re.compile(
-                rf'(!)?\$({"|".join(sections)}|[a-z_][a-z0-9_]*)',
+                rf'(!)?\$({"|".join(sections)})',
                 re.IGNORECASE,
             )
 
